@@ -111,7 +111,8 @@ def run(ctx):
     # (V)
     nseq = ctx.pick(12, 80)
     maxn = ctx.pick(120, 200)
-    seqs = common.random_sequences(ctx.rng, nseq, maxn, 1)
+    # beyond the random bound: windows holding 256 or more residues of one group
+    seqs = common.random_sequences(ctx.rng, nseq, maxn, 1) + [("GGS" * 101)[:302], "Q" * 290]
     trs = []
     for i, s in enumerate(seqs):
         o, s, how = make_object(lc, s, ctx.rng)
@@ -119,6 +120,8 @@ def run(ctx):
         hist = ([{"made": how}] if how != "direct" else []) + (warmup(o, ctx.rng) if i % 2 else [])
         ev = []
         ws = {1, N, N + 1, N + 2, N + 3, ctx.rng.randint(1, N), ctx.rng.randint(1, N), min(N, 5), min(N, 6), min(N, 4), min(N, 8)}
+        if N >= 280:
+            ws = {N, N + 1, 256, 257, N - 1, 5}
         for w in sorted(ws):
             for stat, name in STAT_CALL.items():
                 wa = w
@@ -172,6 +175,26 @@ def run(ctx):
         if bad[0] == "ok":
             ctx.notes.append("group list with X accepted for %s" % s[:20])
         trs.append({"tid": i + 1, "seq": list(s), "after": hist, "ev": ev})
+    # many distinct window sizes on one object, then earlier ones again (a per-object memo must not mix them up)
+    s = common.random_sequences(ctx.rng, 1, 110, 100)[0]
+    o = lc.SP(s)
+    ev = []
+    order = list(range(1, 81)) + [ctx.rng.randint(1, 80) for _ in range(25)]
+    for k, w in enumerate(order):
+        for stat, name in list(STAT_CALL.items())[:3]:
+            out = common.call(getattr(o, name), w)
+            if k < 70 and k % 9:
+                continue                       # the first pass is mostly to fill whatever the object remembers
+            e = {"q": "linear", "stat": stat, "w": w, "exc": out[0] != "ok", "pos": [], "rv": []}
+            if out[0] == "ok":
+                pr = as_profile(out[1], len(s))
+                if pr is None:
+                    ctx.violation("profile-shape", {"seq": s, "w": w, "call": name}, actual=out)
+                    continue
+                e["pos"] = [int(p) for p in pr[0]]
+                e["rv"] = [common.fx(v) for v in pr[1]]
+            ev.append(e)
+    trs.append({"tid": len(trs) + 1, "seq": list(s), "after": [{"made": "80 distinct windows first"}], "ev": ev})
     verdicts, _ = traces.validate(ctx, "Trace_Queries", trs, {"sqrt": []})
     for tr in trs:
         v = verdicts[tr["tid"]]
